@@ -57,7 +57,7 @@ def parse_f64(vm, s):
     return err(Adt('ParseFloatError', 0, []))
 
 
-_RUST_FLOAT = re.compile(r'[+-]?(?:(?:\d+\.?\d*|\.\d+)(?:[eE][+-]?\d+)?|inf|infinity|nan)', re.I)
+_RUST_FLOAT = re.compile(r'[+-]?(?:(?:[0-9]+\.?[0-9]*|\.[0-9]+)(?:[eE][+-]?[0-9]+)?|inf|infinity|nan)', re.I)      # ASCII digits only (\d would admit other Unicode digits, which Python's float() parses and Rust rejects)
 
 
 def rust_parse_f64(txt):
@@ -390,6 +390,7 @@ def _(vm, a, ci):
                 return True if m == 'contains' else some(_view(s, 0, i).nbytes())
         return False if m == 'contains' else NONE()
     if m == 'rfind':
+        if pk == 'str' and not pv.chars(): return some(s.nbytes())          # the empty pattern matches at the very end
         for i in range(n - 1, -1, -1):
             if _match_at(vm, items, i, pk, pv) is not None: return some(_view(s, 0, i).nbytes())
         return NONE()
@@ -416,7 +417,7 @@ def _(vm, a, ci):
             else: i += 1
         return It('list', out, 0)
     if m == 'split_once':
-        for i in range(n):
+        for i in range(n + 1 if (pk == 'str' and not pv.chars()) else n):
             k = _match_at(vm, items, i, pk, pv)
             if k is not None: return some(tup(_view(s, 0, i), _view(s, i + k, n)))
         return NONE()
